@@ -89,7 +89,7 @@ def gen_pd(rng, tier, independent=False):
             y = (x + sum(zs)) % ky if rng.random() < dep else rng.randrange(ky)
             rows.append([x, y] + zs)
     lam = rng.choice(list(LAMBDAS) + ["chi_square", "g_sq", "log_likelihood", "modified_log_likelihood", "numeric"])
-    return {"kx": kx, "ky": ky, "kz": kz, "rows": rows, "lam": lam, "num": rng.choice([0.5, 2.0, -1.5]), "alpha": rng.choice([0.01, 0.05, 0.5]),
+    return {"kx": kx, "ky": ky, "kz": kz, "rows": rows, "lam": lam, "num": rng.choice([0.5, 2.0, -1.5, 0, 0.0, 1, 1.0]), "alpha": rng.choice([0.01, 0.05, 0.5]),
             "dtype": rng.choice(["int", "int", "category"]), "independent": independent,
             # the statistic does not depend on how states are labelled nor on the frame's index
             "edit": rng.random() < .4, "relabel": rng.choice([None, None, rng.randrange(10 ** 6)]), "index": rng.choice(["range", "range", "shuffled", "reversed", "str"])}
@@ -252,7 +252,8 @@ def gen_pr(rng, tier):
     data = [[rng.randint(-20, 20) / 4 for _ in range(cols)] for _ in range(n)]
     for r in data:                                   # some dependence
         r[1] = r[1] + 0.5 * r[0] + (0.7 * r[2] if nz else 0)
-    return {"data": data, "nz": nz, "shift": [rng.randint(-5, 5) for _ in range(cols)], "scale": [rng.choice([1, 2, 0.5, 10]) for _ in range(cols)]}
+    return {"data": data, "nz": nz, "shift": [rng.randint(-5, 5) for _ in range(cols)], "scale": [rng.choice([1, 2, 0.5, 10]) for _ in range(cols)],
+            "ones": rng.random() < .4}
 
 
 def ref_partial(data, nz):
@@ -287,6 +288,25 @@ def run_pr(case, drv):
     except Exception as e:
         return fail(f"pearsonr raised {type(e).__name__}: {e}", **tags)
     rc, rp = ref_partial(case["data"], nz)
+    if case.get("ones") and nz >= 1:
+        # the conditioning set contains an explicit column of ones: the regression then HAS an intercept, whatever the library adds
+        # itself, and the result must be the partial correlation given Z (and stay put under shifts of X and Y)
+        try:
+            dfo = df.copy()
+            dfo["one"] = 1.0
+            c2, p2 = pearsonr("X", "Y", cols[2:] + ["one"], dfo, boolean=False)
+            dfs = dfo.copy()
+            dfs["X"] = dfs["X"] + 3.5
+            dfs["Y"] = dfs["Y"] - 1.25
+            c3, p3 = pearsonr("X", "Y", cols[2:] + ["one"], dfs, boolean=False)
+        except Exception as e:
+            return fail(f"pearsonr with a column of ones in Z raised {type(e).__name__}: {e}", **tags)
+        if abs(c2 - rc) > 1e-7 or abs(p2 - rp) > 1e-7:
+            return fail({"msg": f"pearsonr(X, Y | Z + ones) = ({c2}, {p2}); Pearson test on least-squares residuals = ({rc}, {rp})",
+                         "kind": "with_ones", "nz": nz}, **tags)
+        if abs(c2 - c3) > 1e-7 or abs(p2 - p3) > 1e-7:
+            return fail({"msg": f"pearsonr(X, Y | Z + ones) changes when X and Y are shifted: ({c2}, {p2}) vs ({c3}, {p3})", "kind": "with_ones_shift",
+                         "nz": nz}, **tags)
     if abs(c0 - rc) > 1e-7 or abs(p0 - rp) > 1e-7:
         return fail({"msg": f"pearsonr = ({c0}, {p0}); Pearson test on least-squares residuals (with intercept) = ({rc}, {rp})", "kind": "reference",
                      "nz": nz}, **tags)
